@@ -55,8 +55,12 @@ func (r *c03runner) multiAuthz(form string, p *ast.Policy, pi, ai, ri int, want 
 }
 
 func (r *c03runner) multi(triples [][6]int) {
-	in := func(l, rr ast.IsNode) ast.IsNode { return ast.NodeTypeIn{BinaryNode: ast.BinaryNode{Left: l, Right: rr}} }
-	and := func(l, rr ast.IsNode) ast.IsNode { return ast.NodeTypeAnd{BinaryNode: ast.BinaryNode{Left: l, Right: rr}} }
+	in := func(l, rr ast.IsNode) ast.IsNode {
+		return ast.NodeTypeIn{BinaryNode: ast.BinaryNode{Left: l, Right: rr}}
+	}
+	and := func(l, rr ast.IsNode) ast.IsNode {
+		return ast.NodeTypeAnd{BinaryNode: ast.BinaryNode{Left: l, Right: rr}}
+	}
 	v := func(n string) ast.IsNode { return ast.NodeTypeVariable{Name: types.String(n)} }
 	reach := func(s, t int) bool { return r.g.reach(s)&(1<<t) != 0 }
 	for _, q := range triples {
